@@ -698,18 +698,17 @@ def main(run):
     stage_sort(run, cases, 400 if thorough else 60); lap("stage_sort")
     stage_topo(run, cases, 400 if thorough else 60); lap("stage_topo")
     stage_tids(run, cases, 120 if thorough else 24); lap("stage_tids")
-    bad = coq_cases("q", [(i, t) for i, t, _, _ in cases]); lap("coq_cases")
     for fin in pending:
         fin()
     lap("cli_wait")
-    bad |= coq_cases("c", [(i, t) for i, t, _, _ in clicases]); lap("coq_cli_cases")
     cases += clicases
+    bad = coq_cases("q", [(i, t) for i, t, _, _ in cases]); lap("coq_cases")
     run.extra["model_cases"] = len(cases)
     for i, t, kind, info in cases:
         if i in bad:
             keymap = {"parse": "lit-names-schedule-dependent", "cli-names": "lit-names-schedule-dependent",
                       "tids": "typeids-map-order", "cli-tids": "typeids-map-order"}
-            key = keymap.get(kind) or "model-mismatch:%s:%s" % (kind, hashlib.sha256(t.encode()).hexdigest()[:12])
+            key = keymap.get(kind) or "model-mismatch:%s" % kind      # one report per family; the first failing case is the replay
             what = {"parse": "literal names allocated by the real parser differ from per-module numbering (names depend on the parse order)",
                     "cli-names": "function-literal names in the generated code differ from per-module numbering",
                     "sort": "sortDiagnostics emitted an order different from the stable sort by (nil-last, file, line)",
